@@ -25,8 +25,18 @@ WriteOK(ev) ==
      /\ ev.pv = "ok" /\ ev.pnr = ev.nr /\ ev.pnc = ev.nc /\ Len(ev.pcols) = ev.nc
      /\ Mat(ev.pnr, ev.pnc, ev.pcols) = M
 
+\* whatever text was accepted, what comes back is a MATRIX: no index twice in a column or row list, indices inside the dimensions,
+\* row and column views of the same set of ones
+NoDup(s) == \A a, b \in 1..Len(s) : s[a] = s[b] => a = b
+WellFormed(ev) ==
+  /\ Len(ev.pcols) = ev.pnc /\ Len(ev.prows) = ev.pnr
+  /\ \A c \in 1..ev.pnc : NoDup(ev.pcols[c]) /\ \A t \in 1..Len(ev.pcols[c]) : ev.pcols[c][t] \in 0..ev.pnr - 1
+  /\ \A r \in 1..ev.pnr : NoDup(ev.prows[r]) /\ \A t \in 1..Len(ev.prows[r]) : ev.prows[r][t] \in 0..ev.pnc - 1
+  /\ \A c \in 1..ev.pnc : \A t \in 1..Len(ev.pcols[c]) : \E u \in 1..Len(ev.prows[ev.pcols[c][t] + 1]) : ev.prows[ev.pcols[c][t] + 1][u] = c - 1
+  /\ \A r \in 1..ev.pnr : \A t \in 1..Len(ev.prows[r]) : \E u \in 1..Len(ev.pcols[ev.prows[r][t] + 1]) : ev.pcols[ev.prows[r][t] + 1][u] = r - 1
 ParseOK(ev) ==
   /\ ev.o = "ok" /\ ev.pv \in {"ok", "err"}                 \* total: a matrix or an error message
+  /\ (ev.pv = "ok" => WellFormed(ev))
   /\ LET p == Parse(ev.lines) IN
      (p.res = "ok" /\ ValidAlist(ev.lines, ParsedMatrix(p))) =>
         /\ ev.pv = "ok" /\ ev.pnr = p.nr /\ ev.pnc = p.nc /\ Len(ev.pcols) = p.nc
